@@ -72,6 +72,17 @@ func collectRaw(c *Ctx, w *ws.Workspace, driver string, units []rt.JobUnit, para
 		}(i, g)
 	}
 	wg.Wait()
+	// a stage whose fixture could not be built because the generated Register<Service>Server panicked says so in a
+	// "viol" record (stages that count cases themselves, e.g. the tscases pass of c10, repeat their ordinary records
+	// here: only this symptom is taken from raw stages)
+	if c.Run != nil {
+		for _, rr := range out {
+			var rec struct{ K, Cell, Symptom, Detail string }
+			if json.Unmarshal(rr, &rec) == nil && rec.K == "viol" && rec.Symptom == "server_registration_panics" {
+				c.Run.Violate(rec.Cell, rec.Symptom, rec.Detail, nil)
+			}
+		}
+	}
 	return out, firstErr
 }
 
